@@ -214,10 +214,11 @@ Proof.
     apply filter_In in Hv. destruct Hv as [Hv Hsv]. rewrite forallb_forall in H6. specialize (H6 v Hv).
     apply N.ltb_lt in H6. apply N.ltb_lt. apply rank_lt; [exact H6|].
     unfold survives in Hsv. apply negb_true_iff in Hsv. exact Hsv. }
-  unfold part_spec in *. fold vm' in Hnt |- *. cbn [p_nt] in Hnt.
+  unfold part_spec in Hnt. unfold part_spec. cbn [p_nt] in Hnt. fold vm'.
   unfold part_wf. cbn [p_nstrips p_strips p_nv p_vmap p_tris p_hasvw p_vw p_hasbi p_bi p_nt].
   rewrite Hwf, H9. rewrite !N.eqb_refl. rewrite Hent.
-  destruct (N.ltb_spec (vlen vm') 65536); [|lia]. cbn [andb].
+  assert (Hvm65 : vlen vm' < 65536) by (clear -Hvl Hfl H0; lia).
+  destruct (N.ltb_spec (vlen vm') 65536) as [_|Hc]; [|clear -Hc Hvm65; lia]. cbn [andb].
   (* partner arrays *)
   assert (Hvw : (if p_hasvw p then vlen (if p_hasvw p then keep_partner idx (p_vmap p) (p_vw p) else p_vw p) =? vlen vm' else true) = true).
   { destruct (p_hasvw p); [|reflexivity]. apply N.eqb_eq in H3. apply N.eqb_eq. rewrite Hvl. unfold vlen.
@@ -229,16 +230,16 @@ Proof.
   destruct mapped.
   - set (t' := tris_spec (dlpos idx 0 (p_vmap p)) (p_tris p)) in *.
     pose proof (tris_spec_length (dlpos idx 0 (p_vmap p)) (p_tris p)) as Htl. fold t' in Htl.
-    destruct (N.ltb_spec (vlen t') 65536); [|unfold vlen in *; lia].
+    destruct (N.ltb_spec (vlen t') 65536) as [_|Hc]; [|clear -Hc Htl H7; unfold vlen in *; lia].
     assert (Hlt : forallb (tri_lt (vlen vm')) t' = true).
     { rewrite Hvl. rewrite <- erase_spec_dlpos_self. rewrite erase_spec_vlen. apply tris_spec_lt. exact H. }
     rewrite Hlt. destruct t' as [|t0 t''] eqn:Ht'; [cbn in Hnt; congruence|].
     pose proof (nonempty_tri_lt _ _ _ Hlt) as Hpos.
-    destruct vm' as [|v0 vm'']; [cbn in Hpos; lia|]. reflexivity.
+    destruct vm' as [|v0 vm'']; [clear -Hpos; cbn in Hpos; lia|]. reflexivity.
   - apply andb_prop in H. destruct H as [Hlt Hin].
     set (t' := tris_spec idx (p_tris p)) in *.
     pose proof (tris_spec_length idx (p_tris p)) as Htl. fold t' in Htl.
-    destruct (N.ltb_spec (vlen t') 65536); [|unfold vlen in *; lia].
+    destruct (N.ltb_spec (vlen t') 65536) as [_|Hc]; [|clear -Hc Htl H7; unfold vlen in *; lia].
     assert (Hlt' : forallb (tri_lt (rank idx nv)) t' = true) by (apply tris_spec_lt; exact Hlt).
     assert (Hin' : forallb (tri_in vm') t' = true) by (apply tris_spec_in; exact Hin).
     rewrite Hlt', Hin'. destruct t' as [|t0 t''] eqn:Ht'; [cbn in Hnt; congruence|].
